@@ -283,11 +283,15 @@ func c04Run(c fw.Case) fw.Verdict {
 	}
 	var foreign *entry.Entry
 	if mut == "foreign-db-entry" {
-		op, err := ApplyOp(bg, db2.Stores[C.Idx], honestOp(typ, 77))
-		if err != nil {
-			return fw.Verdict{Status: fw.Inconclusive, What: "foreign write: " + err.Error()}
+		// the announced foreign head has 0-2 foreign ancestors: the replicator hands several foreign logs
+		// over in one batch
+		for i := 0; i <= pos; i++ {
+			op, err := ApplyOp(bg, db2.Stores[C.Idx], honestOp(typ, 77+i))
+			if err != nil {
+				return fw.Verdict{Status: fw.Inconclusive, What: "foreign write: " + err.Error()}
+			}
+			foreign = op.GetEntry().(*entry.Entry)
 		}
-		foreign = op.GetEntry().(*entry.Entry)
 	}
 	other, _ := A.Rehash(&entry.Entry{LogID: "x", Payload: []byte("x"), V: 2, Clock: entry.NewLamportClock([]byte{1}, 1)})
 	x := &c04Ctx{other: other, advPub: A.ID.PublicKey, advID: A.ID, otherDB: db2.Addr}
